@@ -4,7 +4,10 @@ package forward
 import (
 	"net/http"
 	"net/http/httputil"
+	"net/textproto"
 	"net/url"
+	"slices"
+	"strings"
 
 	"github.com/vulcand/oxy/v2/utils"
 )
@@ -15,6 +18,8 @@ func New(passHostHeader bool) *httputil.ReverseProxy {
 
 	return &httputil.ReverseProxy{
 		Director: func(request *http.Request) {
+			protectForwardingHeaders(request)
+
 			modifyRequest(request)
 
 			h.Rewrite(request)
@@ -25,6 +30,38 @@ func New(passHostHeader bool) *httputil.ReverseProxy {
 		},
 		ErrorHandler: utils.DefaultHandler.ServeHTTP,
 	}
+}
+
+// protectForwardingHeaders stops a client from having the forwarding headers removed:
+// ReverseProxy deletes every header named in Connection after Director has returned,
+// which would include the X-Forwarded-* and X-Real-Ip headers set by Director.
+// A forwarding header named in Connection is hop-by-hop, so the value the client sent
+// is dropped here and the name is taken out of Connection.
+func protectForwardingHeaders(req *http.Request) {
+	conn, ok := req.Header[Connection]
+	if !ok {
+		return
+	}
+	kept := make([]string, 0, len(conn))
+	for _, line := range conn {
+		var tokens []string
+		for _, token := range strings.Split(line, ",") {
+			name := textproto.CanonicalMIMEHeaderKey(textproto.TrimString(token))
+			if slices.Contains(XHeaders, name) {
+				req.Header.Del(name)
+				continue
+			}
+			tokens = append(tokens, token)
+		}
+		if len(tokens) > 0 {
+			kept = append(kept, strings.Join(tokens, ","))
+		}
+	}
+	if len(kept) == 0 {
+		req.Header.Del(Connection)
+		return
+	}
+	req.Header[Connection] = kept
 }
 
 // Modify the request to handle the target URL.
